@@ -304,6 +304,23 @@ delimiters and placeholder marks inside). Non-trivial = the input contains a quo
     if let Some(p) = ctx.parts.last_mut() {
         p.exhaustive = true;
     }
+    // every body length and tail length up to a bound for each delimiter (block-wise scanners): a quoted token must end at its own
+    // closing delimiter however long the text before and after it is
+    let max_body: u64 = ctx.tier.pick(160, 700);
+    const DELIMS: [char; 4] = ['\'', '"', '`', '['];
+    ctx.run_indexed(
+        "lengths",
+        (max_body + 1) * 4 * 3,
+        &|i| {
+            let delim = DELIMS[(i % 4) as usize];
+            let shape = (i / 4) % 3;
+            let len = (i / 12) as usize;
+            let body: Vec<Piece> = (0..len).map(|k| if shape == 1 && k % 5 == 4 { Piece::Esc(if delim == '[' { ']' } else { delim }) } else { Piece::Ch(if k % 3 == 0 { 'é' } else { 'a' }) }).collect();
+            let tail = if shape == 2 { " = ? AND deleted = 0 AND name <> ?".repeat(1 + len % 3) } else { " = ?".to_string() };
+            Case::Segs(vec![Seg::Plain("x".repeat(len % 19)), Seg::Plain(" ".into()), Seg::Quoted { delim, body }, Seg::Plain(tail), Seg::Quoted { delim: '\'', body: vec![Piece::Ch('?')] }])
+        },
+        &check,
+    );
     let n = ctx.tier.pick(60_000, 2_000_000);
     ctx.run_proptest("random-unicode", n, &|| nasty_string(200).prop_map(Case::Raw), &check);
     let n = ctx.tier.pick(60_000, 2_000_000);
